@@ -18,6 +18,8 @@ type zzRec struct {
 	created uint64
 }
 
+func zzLogger() *slog.Logger { return slog.Default() }
+
 // zzNewDB builds the real db struct directly over the model KV (what NewDB does, minus the
 // notification trimmer goroutine); the in-memory version counter is given.
 func zzNewDB(m *zzKV, last int64) *db {
